@@ -61,7 +61,17 @@ def chunks_from(X, y, rng, n_chunks=None, chunk_size=2):
     counts = np.bincount(y)
     mx = int(sum(c // chunk_size for c in counts))
     n_chunks = n_chunks or max(2, min(mx, X.shape[1] + 3))
-    return Constraints(y).chunks(n_chunks=n_chunks, chunk_size=chunk_size, random_state=int(rng.randint(1 << 30)))
+    ch = Constraints(y).chunks(n_chunks=n_chunks, chunk_size=chunk_size, random_state=int(rng.randint(1 << 30)))
+    return relabel_chunks(ch, rng)
+
+
+def relabel_chunks(ch, rng):
+    """chunklet ids are arbitrary non-negative integers: half of the time they do not start at 0 and have gaps"""
+    ch = np.asarray(ch).copy()
+    if rng.rand() < 0.5:
+        step, off = int(rng.choice([1, 2, 3])), int(rng.choice([0, 1, 5]))
+        ch = np.where(ch >= 0, ch * step + off, ch)
+    return ch
 
 
 def default_params(name, rng, d):
@@ -173,6 +183,18 @@ class CountingCallable:
         return self.pool[idx]
 
 
+class RecordsCallable:
+    """callable preprocessor over Python records (lists): integer-valued records are lists of ints, so the dtype of
+    what it returns depends on which records are asked for"""
+    def __init__(self, pool):
+        self.records = [[int(v) for v in row] if np.all(row == np.round(row)) else [float(v) for v in row] for row in np.asarray(pool)]
+        self.calls = 0
+
+    def __call__(self, idx):
+        self.calls += 1
+        return np.array([self.records[int(i)] for i in np.asarray(idx).ravel()])
+
+
 def make_preprocessor(kind, pool):
     if kind == 'array':
         return pool
@@ -180,6 +202,8 @@ def make_preprocessor(kind, pool):
         return pool.tolist()
     if kind == 'callable':
         return CountingCallable(pool)
+    if kind == 'records':
+        return RecordsCallable(pool)
     raise KeyError(kind)
 
 
